@@ -104,6 +104,8 @@ def ev_bool(src, r, exc):
 
 
 LISTS = [[7], [7, 8], [7, 8, 9], [7, 7, 8], [1, 2, 3, 4], [5, 5, 5]]
+FRAC_WS = [[0, 700, 200, 100], [0] + [100] * 10, [0, 300, 300, 300, 100], [0, 100, 200, 700], [100, 200, 0, 700],
+           [0, 333, 333, 334], [0, 1, 999], [700, 200, 100, 0]]
 # weights below the 1e-5 resolution of choice_weighted, in units of 1e-7
 SUB_WS = [[0, 10], [10, 0], [0, 40, 0], [0, 50, 50], [0, 0, 99], [1, 0]]
 TINY_WS = [[0, 3, 1], [3, 0, 1], [3, 1, 0], [0, 0, 2], [2, 0, 0], [1, 1], [5], [0, 1], [1, 0], [2, 3, 5],
@@ -143,6 +145,16 @@ def derived_over(src_name, mk_source_explore, batch, stats, tid_prefix):
             exc = exc_name(res) if isinstance(res, Exception) else ""
             evs.append(ev_weighted(src_name, ws, res, exc))
         batch.trace(f"{tid_prefix}/weightedP/{ws}", evs)
+        stats["events"] += len(evs)
+    # fractional weights whose running float sum and exactly rounded sum fall on different sides of a 1e-5 boundary
+    # (tenths are not representable); ws in units of 1e-3, boundary raw values
+    for ws in FRAC_WS:
+        evs = []
+        opts = list(range(1, len(ws) + 1))
+        for _, s, res in mk_source_explore(lambda s: s.choice_weighted(opts, [w / 1000 for w in ws])):
+            exc = exc_name(res) if isinstance(res, Exception) else ""
+            evs.append(ev_weighted(src_name, ws, res, exc))
+        batch.trace(f"{tid_prefix}/weightedF/{ws}", evs)
         stats["events"] += len(evs)
     # weights below the resolution of the scaled integers: a zero-weight option is still never chosen
     for ws in SUB_WS:
